@@ -1,12 +1,19 @@
 """C07 - event authorisation: Auth.tla <-> Allowed().
 
-spec -> code: every scenario of the ten Auth_gen.tla families is concretised and the real verdict compared.
-code -> spec: seeded random scenarios over the full vocabulary are run through Allowed(), logged, and the
-trace is validated by Auth_trace.tla."""
+spec -> code: every scenario of the Auth_gen.tla families is concretised and the real verdict compared
+(family placcess: also after the caller read a power-levels content through a public accessor and edited the
+value it got - accessor results are copies); every behaviour of the provider state machine AuthProv.tla
+(NewAuthEvents(list) / AddEvent / Clear, at most 4 operations) is replayed on a real AuthEvents: after every
+step the provider serves the last event given for each slot, Valid() is true iff the events held are of one
+room, and Allowed() on a message of room A / room B gives the specification's verdict.
+code -> spec: seeded random scenarios over the full vocabulary (with random accessor-and-edit steps of the
+caller before power-levels checks) are run through Allowed(), logged, and the trace is validated by
+Auth_trace.tla."""
 from vlib import auth
 
 
 def run(ctx):
     ctx.repro_attempts = 6   # verdicts that depend on map iteration order are retried in fresh processes
-    auth.run_families(ctx, "c07", auth.FAMILIES_ALL)
-    auth.record_and_validate(ctx, 16000 if ctx.tier == "quick" else 60000)
+    n = 16000 if ctx.tier == "quick" else 60000
+    auth.run_families(ctx, "c07", auth.FAMILIES_ALL, record=n)
+    auth.record_and_validate(ctx, n)
